@@ -98,6 +98,89 @@ def shared_reference(c, rounds):
   return ys, snaps
 
 
+def gen_copy(rng):
+  """a template module (with module-valued fields of its own) stamped out several times with Module.copy()"""
+  def desc(depth):
+    r = rng.random()
+    if depth <= 0 or r < 0.3:
+      return {'kind': 'leaf', 'w': rng.randint(1, 3)}
+    if r < 0.75:
+      return {'kind': 'wrap', 'inner': desc(depth - 1), 'w': rng.randint(0, 2)}
+    return {'kind': 'pair', 'inner': desc(depth - 1), 'inner2': desc(depth - 1), 'w': rng.randint(0, 2)}
+  t = desc(rng.randint(1, 3))
+  names = [rng.choice([None, None, 'layer_%d' % i, 'blk%d' % i]) for i in range(rng.randint(2, 4))]
+  cls = {'leaf': 'Leaf', 'wrap': 'Wrap', 'pair': 'Pair'}[t['kind']]
+  k, resolved = 0, []
+  for nm in names:
+    if nm is None:
+      resolved.append('%s_%d' % (cls, k))
+      k += 1
+    else:
+      resolved.append(nm)
+  x = rng.randint(-2, 3)
+
+  def ev(d, x, n):
+    if d['kind'] == 'leaf':
+      return x * d['w'] + n
+    if d['kind'] == 'wrap':
+      return ev(d['inner'], x, n) * 2 + d['w'] + n
+    return ev(d['inner2'], ev(d['inner'], x, n), n) + d['w'] + n
+
+  def paths(d, prefix):
+    out = [['/'.join(prefix), d['w']]]
+    if d['kind'] != 'leaf':
+      out += paths(d['inner'], prefix + ['inner'])
+    if d['kind'] == 'pair':
+      out += paths(d['inner2'], prefix + ['inner2'])
+    return out
+  ys, inputs = [], []
+  for n in (1, 2):
+    v, ins = x, []
+    for _ in names:
+      ins.append(v)
+      v = ev(t, v, n)
+    ys.append(v)
+    inputs.append(ins)
+  want_params = sorted(p for nm in resolved for p in paths(t, [nm]))
+  alone = [ev(t, xin, 2) for xin in inputs[1]]
+  return {'template': t, 'names': names, 'resolved_names': resolved, 'x': x, 'inputs_apply': inputs[1],
+          'want': {'y_init': ys[0], 'y_apply': ys[1], 'params': want_params, 'alone': alone}}
+
+
+def run_copy(chk):
+  rng = chk.rng
+  n = 300 if chk.tier == 'thorough' else 36
+  cases = [gen_copy(rng) for _ in range(n)]
+  W = 6
+  results = common.run_impl_parallel('impl_c02_shared.py', [{'cases': cases[i::W]} for i in range(W)], workers=W, timeout=1500)
+  obs = [None] * len(cases)
+  for k, r in enumerate(results):
+    for j, o in enumerate(r['cases']):
+      obs[k + W * j] = o
+  for c, o in zip(cases, obs):
+    chk.count({'copy_family': c}, c['template']['kind'] != 'leaf')
+    if 'err' in o:
+      chk.violation('oracle', 'a parent stamping out copies of a template module with Module.copy() could not be initialised / applied: %s %s' % (o['err'], o.get('msg')), {'case': c, 'tb': o.get('tb')})
+      continue
+    r, w = o['ok'], c['want']
+    what = None
+    if sorted(r['params']) != w['params']:
+      what = 'the variables of the copies do not sit under each copy\'s own name (every copy is an independent submodule with its own nested submodules)'
+    elif sorted(p for p, _ in r['counts']) != [p for p, _ in w['params']] or any(v != 1 for _, v in r['counts']):
+      what = 'after init every module instance of every copy must have been called exactly once with its own counter'
+    elif r['y_init'] != w['y_init']:
+      what = 'init output differs from the reference (independent copies of the template applied in sequence)'
+    elif r['y_apply'] != w['y_apply'] or any(v != 2 for _, v in r['counts_apply']):
+      what = 'apply on the variables of init does not continue from them'
+    elif r['shape_paths'] != [p for p, _ in w['params']]:
+      what = 'eval_shape(init) gives another parameter tree than init'
+    elif r['alone'] != w['alone']:
+      what = 'a copy applied on its own subtree does not compute what it computes inside its parent'
+    if what:
+      chk.violation('oracle', 'Module.copy(): ' + what, {'case': c, 'observed': r})
+  chk.notes['copy_family'] = {'cases': len(cases)}
+
+
 def run_shared(chk):
   rng = chk.rng
   n = 600 if chk.tier == 'thorough' else 60
@@ -161,6 +244,7 @@ def run(chk):
   thorough = chk.tier == 'thorough'
   chk.proofs(PROOF_FILES)
   run_shared(chk)
+  run_copy(chk)
   cases = []
   for i in range(4000 if thorough else 280):
     n = rng.choice([1, 2, 3])
